@@ -150,6 +150,14 @@ def run(ctx):
                 break
         # a member died and was removed, datasets were deleted and created: a node that no longer answers List, or
         # refuses / never sees the catalogue changes, has a wedged control plane
+        # whatever the scenario: a live node whose List call runs into its deadline no longer answers - its catalogue
+        # apply loop (or whoever holds its lock) is stuck
+        if v[1] == "ViewError" and "deadline" in e.get("err", "").lower() and sc != "dead-leave":
+            sig = "Wedged@%s:ViewError" % sc
+            if sig not in seen:
+                seen.add(sig)
+                ctx.finding(sig, "%s: a live node no longer answers List (restart / catching up with existing datasets): %s" % (sig, json.dumps({k: e[k] for k in e if k != "datasets"})[:400]), {"event": e})
+            continue
         if sc == "dead-leave" and v[1] in ("ViewError", "DeleteFailed", "CreateFailed", "CatalogueDiffers", "CatalogueLostOnRestart", "DeletedStillListed"):
             sig = "Wedged@dead-leave:%s" % v[1]
             if sig not in seen:
